@@ -55,6 +55,11 @@ func contractMentions(c *Contract, id string) bool {
 	if hasID(c.nopanic, id) {
 		return true
 	}
+	for _, pd := range c.protects {
+		if hasID(pd.ids, id) {
+			return true
+		}
+	}
 	for _, cl := range c.allocs {
 		if hasID(cl.ids, id) {
 			return true
@@ -114,6 +119,7 @@ func whyFrame(repo, verif, pat, fn, class string) {
 	if specs, err := LoadSpecs(filepath.Join(verif, "specs")); err == nil {
 		eng.specs = specs
 	}
+	eng.frames.followGo = os.Getenv("GOVC_FOLLOWGO") != ""
 	for f := range eng.allFuncs {
 		if !(eng.inModule(f) && (contractKey(f) == fn || f.String() == fn)) {
 			continue
@@ -217,6 +223,12 @@ func runCheck(cmd, id, repo, verif, tier string, keep bool, only string, verbose
 			fmt.Fprintln(os.Stderr, "lib contracts:", err)
 			return 2
 		}
+	}
+	effectReports, err := eng.expandProtects(id)
+	eng.effectReports = effectReports
+	if err != nil {
+		fmt.Println("UNDECIDED: effect clauses:", err)
+		return 2
 	}
 	tLoad := time.Since(t0).Seconds()
 
@@ -427,7 +439,8 @@ func runCheck(cmd, id, repo, verif, tier string, keep bool, only string, verbose
 			if present[name] == nil {
 				// site-numbered obligations (safety checks, call-site preconditions, frames)
 				// come and go with harmless edits; clause-keyed ones must stay
-				if strings.Contains(name, "#safe.") || strings.Contains(name, "#pre@") || strings.Contains(name, "#frame.") || strings.Contains(name, "#alloc.") {
+				if strings.Contains(name, "#safe.") || strings.Contains(name, "#pre@") || strings.Contains(name, "#frame.") || strings.Contains(name, "#alloc.") || strings.Contains(name, "#post.protects.") {
+					// (protects.*: one obligation per method that has the effect; a method that lost it is fine)
 					continue
 				}
 				missing = append(missing, name)
@@ -596,6 +609,7 @@ func writeEvidence(eng *Engine, verif, id, tier string, seed int, results []*Fun
 			"functions_under_contract": funcs,
 			"inlined_functions":        inlined,
 			"opaque_calls":             opaque,
+			"effect_checks":            eng.effectReports,
 			"trusted_contracts_used":   trusted,
 			"obligation_kinds":         kinds,
 			"discharged_by_backend":    solverCount,
